@@ -904,8 +904,11 @@ def c05(ctx):
     return "model_checking"
 
 
-def run_parse_oracle(ctx, name, recs, treelemma_is_violation=True):
-    """the parser oracle: Expr::parse_tree on every input vs Parse.tla (tree, named groups, error kind and position)"""
+def run_parse_oracle(ctx, name, recs, treelemma_is_violation=True, mode=None):
+    """the parser oracle: Expr::parse_tree on every input vs Parse.tla (tree, named groups, referenced groups, error kind and position).
+    mode "contract" (C06): only a panic or an error position beyond the pattern is a violation; mode "spelling" (C19): a spelling that does
+    not parse or whose tree MEANS something else is a violation; every other difference from the mirror is reported as spec drift."""
+    mode = mode or ("contract" if ctx.prop == "C06" else "spelling")
     d = common.workdir(ctx.prop)
     inp = os.path.join(d, name + ".pin.ndjson")
     common.write_ndjson(inp, recs)
@@ -913,16 +916,22 @@ def run_parse_oracle(ctx, name, recs, treelemma_is_violation=True):
     common.clean_prefix(prefix)
     shards = 16 if len(recs) > 3000 else 4
     common.vh(["parse", "--inputs", inp, "--out", prefix, "--shards", shards])
-    rs = tlc.run_shards("TraceParse", [dict(VH_RECS="%s.%d.ndjson" % (prefix, i)) for i in range(shards)])
+    rs = tlc.run_shards("TraceParse", [dict(VH_RECS="%s.%d.ndjson" % (prefix, i), VH_MODE=mode) for i in range(shards)])
     tlc.require_clean(rs, "TraceParse(%s)" % name)
     ctx.add_tlc(rs)
     st = {}
+    drift = []
     for r in rs:
         for k, v in r.tagged("STATS")[0].items():
             st[k] = st.get(k, 0) + v
         for j in r.tagged("REJECT"):
-            ctx.violation("parser: %s -> observed %s, Parse.tla expects %s" % ("".join(j["chars"])[:80], json.dumps(j["observed"])[:300], json.dumps(j["expected"])[:300]),
-                          dict(kind="parse", input=dict(id=1, toks=j["chars"]), got=j))
+            ctx.violation("parser (%s): %s -> observed %s, Parse.tla expects %s" % (mode, "".join(j["chars"])[:80], json.dumps(j["observed"])[:300], json.dumps(j["expected"])[:300]),
+                          dict(kind="parse", mode=mode, input=dict(id=1, toks=j["chars"]), got=j))
+        drift += r.tagged("DRIFT")
+    if drift:
+        ctx.cov.setdefault("spec_drift", {})["parser_" + name] = dict(
+            count=st.get("drift", len(drift)), note="Expr::parse_tree differs from the mirror Parse.tla without breaking the property (informational)",
+            example=dict(pattern="".join(drift[0]["chars"])[:120], observed=json.dumps(drift[0]["observed"])[:300], mirror=json.dumps(drift[0]["expected"])[:300]))
         for j in r.tagged("TREELEMMA"):
             if treelemma_is_violation:
                 raise ToolError("Parse.tla gives different trees for a spelling and its plain form (model-level lemma): %s vs %s" % ("".join(j["chars"]), "".join(j["chars0"])))
@@ -1254,7 +1263,7 @@ def replay(ctx, path):
         return 0
     if d.get("kind") == "parse":
         sub = common.Ctx(ctx.prop, ctx.tier, ctx.seed)
-        run_parse_oracle(sub, "replay", [d["input"]])
+        run_parse_oracle(sub, "replay", [d["input"]], mode=d.get("mode"))
         print(json.dumps([v["what"] for v in sub.violations], indent=1))
         if sub.violations:
             print("VIOLATION property=%s replay=%s" % (ctx.prop, path))
